@@ -338,10 +338,20 @@ func pairingViaCallers(p *an.Prog, addFn *ssa.Function, key string) (string, boo
 		}
 		callers[s.Parent()] = true
 	}
+	// only a helper of the caller's own package is a candidate: a Done owed by another package's
+	// caller would be an obligation on every present and future caller
+	for caller := range callers {
+		if an.Outer(caller).Pkg != an.Outer(addFn).Pkg {
+			return "", false
+		}
+	}
 	n := 0
+	adds := 0
 	for caller := range callers {
 		ex := &an.Explorer{P: p, NoReturn: noReturn, MaxDepth: 3, MaxVisits: 2,
-			Inline: func(g *ssa.Function) bool { return an.Outer(g).Pkg == an.Outer(caller).Pkg && g != caller }}
+			Inline: func(g *ssa.Function) bool {
+				return g != caller && (g == addFn || an.Outer(g).Pkg == an.Outer(addFn).Pkg && an.Outer(g).Pkg == an.Outer(caller).Pkg)
+			}}
 		ex.Effect = func(in ssa.Instruction, st *an.State) string {
 			ci, ok := in.(ssa.CallInstruction)
 			if !ok {
@@ -376,8 +386,9 @@ func pairingViaCallers(p *an.Prog, addFn *ssa.Function, key string) (string, boo
 			if a != d {
 				return "", false
 			}
+			adds += a
 			n++
 		}
 	}
-	return fmt.Sprintf("the matching Done is registered by the caller: Add and Done balance on all %d paths of %d caller(s) with %s inlined", n, len(callers), an.Short(addFn)), n > 0
+	return fmt.Sprintf("the matching Done is registered by the caller: Add and Done balance on all %d paths of %d caller(s) with %s inlined", n, len(callers), an.Short(addFn)), n > 0 && adds > 0
 }
